@@ -247,6 +247,11 @@ def recipe_text(rng: random.Random, title: Optional[str], servings: Optional[int
         body.append(rng.choice(PROSE) + rng.choice(["", " {2}", " {1/2} cups", " {1.5}kg and {3} more"]))
     for ln in links:
         body.append(rng.choice(PROSE) + " " + ln + rng.choice(["", " and more.", " {4} times"]))
+    if rng.random() < 0.12:
+        # a literal "%" and a run of upper-case letters (as long as a compiler placeholder, or one shorter / longer)
+        # immediately followed by a scaled value
+        run = "ABCDEFGHIJKLMNOPQRSTUVWXYZABCDEFGH"[:rng.choice([31, 32, 32, 32, 33])]
+        body.append(rng.choice(["Code %" + run + "{2 tsp} of it", "%" + run + "{3}", "Batch %" + run + "{1/2} and %" + run + "{4}"]))
     if rng.random() < 0.25:
         # a {..} expression wrapped over two source lines (a soft line break inside the braces)
         body.append(rng.choice(["Serve with {8\nsmall burgers} each", "Needs {3\nlarge} tins and {1/2\ncup} oil",
@@ -391,6 +396,17 @@ def force_names(rng: random.Random, src: Node, opt: str) -> None:
             else:
                 parent["ch"].append({"k": "d", "name": nm, "ch": [{"k": "f", "name": "inside.md", "role": "recipe"},
                                                                     {"k": "f", "name": "README.md", "role": "readme"}]})
+    if "st" in opt:
+        parent = rng.choice(all_dirs)
+        base = rng.choice(["mains", "sides & dips", "Cakes"])
+        sufs = rng.sample([".v1", ".v2", ".old", ".2024", ".bak"], k=rng.choice([2, 2, 3]))
+        title = rng.choice(["Mains", "Same", "Équal"])
+        for sf in sufs:
+            if not any(c["name"] == base + sf for c in parent["ch"]):
+                parent["ch"].insert(rng.randrange(len(parent["ch"]) + 1),
+                                    {"k": "d", "name": base + sf,
+                                     "ch": [{"k": "f", "name": rng.choice(["README.md", "index.md"]), "text": "# " + title + "\n\nThe " + sf + " one\n"},
+                                            {"k": "f", "name": "dish" + sf + ".md", "text": "# Dish for 2\n\n    2 eggs\n"}]})
     if "rm" in opt:
         for d in rng.sample(all_dirs, k=min(len(all_dirs), 2)):
             for st in rng.sample(["x", "me", "e", "ex", "dex", "dme", "adme", "ndex", "d"], k=2):
